@@ -237,17 +237,16 @@ Definition lut_ok (first : Z) (data : list Z) (bits : Z) : Prop :=
   0 <= first < 65536 /\ 1 <= zlen data <= 65536 /\ (bits = 8 \/ bits = 16) /\
   Forall (fun v => 0 <= v < 2 ^ bits) data.
 
-(* LUT(first, data).lut_data = data, in memory and after a file round trip
-   (odd 8-bit tables are padded in both); the exception is a one-entry 8-bit table read back
-   from a file, see lut_identity_one_entry_8bit_file_refuted *)
-Lemma lut_identity : forall first data bits expl pad,
-  lut_ok first data bits -> (pad = true -> bits = 8 -> zlen data <> 1) ->
+(* LUT(first, data).lut_data = data, in memory and after a file round trip (odd 8-bit tables are
+   padded in both; a one-entry table comes back from a file as a bare int): NO exception left *)
+Lemma lut_identity_full : forall first data bits expl pad,
+  lut_ok first data bits ->
   exists l, mk_lut first data bits expl pad = Ok l /\
             lut_data l = Ok data /\ ld_first l = first /\ ld_bits l = bits /\
             lut_entries l = zlen data /\
             ld_n l = (if zlen data =? 65536 then 0 else zlen data).
 Proof.
-  intros first data bits expl pad (Hf & Hn & Hb & Hv) Hpad.
+  intros first data bits expl pad (Hf & Hn & Hb & Hv).
   unfold mk_lut.
   replace (first <? 0) with false by lia. replace (65536 <=? first) with false by lia.
   replace (zlen data =? 0) with false by lia. replace (65536 <? zlen data) with false by lia.
@@ -259,42 +258,45 @@ Proof.
   assert (Hent : (if (if n =? 65536 then 0 else n) =? 0 then 65536 else (if n =? 65536 then 0 else n)) = n).
   { destruct (n =? 65536) eqn:E; cbn; [lia|]. replace (n =? 0) with false by lia. reflexivity. }
   rewrite Hent.
-  assert (P1 : (bits =? 8) && (n mod 2 =? 1) && (pad && (n =? 1)) = false).
-  { destruct pad; [|cbn [andb]; apply andb_false_r]. specialize (Hpad eq_refl). cbn [andb].
-    destruct (bits =? 8) eqn:B8; [|reflexivity]. cbn [andb].
-    assert (bits = 8) by lia. specialize (Hpad H). replace (n =? 1) with false by lia.
-    apply andb_false_r. }
-  rewrite P1.
   split; [| repeat split; reflexivity].
-  subst n.
-  destruct Hb as [-> | ->].
-  - (* 8 bit *)
-    cbn [Z.eqb Pos.eqb andb].
-    destruct (zlen data mod 2 =? 1) eqn:Odd.
-    + rewrite zlen_app. change (zlen [0]) with 1.
-      rewrite Z.eqb_refl.
-      rewrite removelast_last. rewrite Z.eqb_refl. reflexivity.
-    + rewrite Z.eqb_refl. reflexivity.
-  - (* 16 bit *)
-    cbn [Z.eqb Pos.eqb andb].
-    assert (Ev : (zlen (enc16 data) mod 2 =? 1) = false)
-      by (rewrite zlen_enc16, Z.mul_comm, Z_mod_mult; reflexivity).
-    rewrite Ev.
-    rewrite dec16_enc16 by (eapply Forall_impl; [|exact Hv]; cbn; intros; lia).
-    rewrite Z.eqb_refl. reflexivity.
+  destruct (pad && (n =? 1)) eqn:SC.
+  - (* bare int: exactly one entry *)
+    apply andb_true_iff in SC. destruct SC as [_ N1]. assert (n = 1) by lia.
+    destruct data as [|v [|w t]]; unfold n, zlen in *; cbn [length] in *; try lia.
+    inversion Hv as [|? ? Hv0 _]; subst.
+    destruct Hb as [-> | ->]; cbn [Z.eqb Pos.eqb andb]; change (2 ^ 8) with 256 in *; change (2 ^ 16) with 65536 in *.
+    + cbn -[Z.mul Z.add Z.div Z.modulo Z.leb Z.pow]. change (1 mod 2 =? 1) with true.
+      cbn -[Z.mul Z.add Z.div Z.modulo Z.leb Z.pow]. replace (256 <=? v + 256 * 0) with false by lia.
+      cbn -[Z.mul Z.add Z.div Z.modulo Z.leb Z.pow]. f_equal. f_equal. lia.
+    + cbn -[Z.mul Z.add Z.div Z.modulo Z.leb Z.pow]. change (2 mod 2 =? 1) with false.
+      cbn -[Z.mul Z.add Z.div Z.modulo Z.leb Z.pow].
+      replace (v mod 256 + 256 * (v / 256)) with v by lia. reflexivity.
+  - subst n.
+    destruct Hb as [-> | ->].
+    + (* 8 bit *)
+      cbn [Z.eqb Pos.eqb andb].
+      destruct (zlen data mod 2 =? 1) eqn:Odd.
+      * rewrite zlen_app. change (zlen [0]) with 1.
+        rewrite Z.eqb_refl.
+        rewrite removelast_last. rewrite Z.eqb_refl. reflexivity.
+      * rewrite Z.eqb_refl. reflexivity.
+    + (* 16 bit *)
+      cbn [Z.eqb Pos.eqb andb].
+      assert (Ev : (zlen (enc16 data) mod 2 =? 1) = false)
+        by (rewrite zlen_enc16, Z.mul_comm, Z_mod_mult; reflexivity).
+      rewrite Ev.
+      rewrite dec16_enc16 by (eapply Forall_impl; [|exact Hv]; cbn; intros; lia).
+      rewrite Z.eqb_refl. reflexivity.
 Qed.
 
-(* the excluded case is a genuine failure of the code as it is: a one-entry 8-bit table is
-   written as two bytes, comes back from the file as a bare int, and lut_data raises TypeError *)
-Lemma lut_identity_one_entry_8bit_file_refuted :
-  exists first data bits expl l,
-    lut_ok first data bits /\ mk_lut first data bits expl true = Ok l /\
-    lut_data l = Err "TypeError".
-Proof.
-  exists 5, [7], 8, None. eexists. split; [|split; vm_compute; reflexivity].
-  unfold lut_ok, zlen. cbn [length Z.of_nat Pos.of_succ_nat]. repeat split; try lia; auto.
-  repeat constructor; lia.
-Qed.
+(* the earlier statement (with the exception of one-entry 8-bit tables read from a file) *)
+Lemma lut_identity : forall first data bits expl pad,
+  lut_ok first data bits -> (pad = true -> bits = 8 -> zlen data <> 1) ->
+  exists l, mk_lut first data bits expl pad = Ok l /\
+            lut_data l = Ok data /\ ld_first l = first /\ ld_bits l = bits /\
+            lut_entries l = zlen data /\
+            ld_n l = (if zlen data =? 65536 then 0 else zlen data).
+Proof. intros first data bits expl pad H _. now apply lut_identity_full. Qed.
 
 (* table lookup with clipping *)
 Lemma lut_lookup_below {A} (d : A) first a t x : x <= first -> lut_lookup d first (a :: t) x = a.
